@@ -156,6 +156,22 @@ impl Callbacks for Cb {
                     mods.push(J::s(common::def_path(tcx, ldid.to_def_id())));
                 }
             }
+            // what the crate root re-exports (glob imports resolved): name, kind of the thing, visibility
+            let mut root_exports: Vec<J> = Vec::new();
+            for ch in tcx.module_children_local(rustc_span::def_id::CRATE_DEF_ID).iter() {
+                let kind = match ch.res {
+                    rustc_hir::def::Res::Def(DefKind::Macro(mk), _) => {
+                        if mk.contains(rustc_hir::def::MacroKinds::DERIVE) { "Macro(Derive)".to_string() } else { "Macro(other)".to_string() }
+                    }
+                    rustc_hir::def::Res::Def(k, _) => format!("{:?}", k),
+                    _ => "other".to_string(),
+                };
+                root_exports.push(obj! {
+                    "name": J::s(ch.ident.name.as_str()),
+                    "kind": J::s(kind),
+                    "public": J::Bool(ch.vis.is_public())
+                });
+            }
             let cwd = std::env::current_dir().map(|p| p.to_string_lossy().to_string()).unwrap_or_default();
             let doc = obj! {
                 "crate": J::s(&krate),
@@ -165,6 +181,7 @@ impl Callbacks for Cb {
                 "impls": J::Arr(impls),
                 "adts": J::Arr(adts),
                 "mods": J::Arr(mods),
+                "root_exports": J::Arr(root_exports),
                 "consts": J::Arr(consts),
                 "traits": J::Arr(traits),
                 "fns": J::Arr(fns)
